@@ -88,8 +88,11 @@ let () =
              | Panic -> "panic" | NoFuel -> "nofuel" in
            let probes = all_probes !alpha !plen @ !extra in
            let lks = String.concat "," (List.map lk probes) in
-           Printf.printf "acc=%s words=%s ranks=%s nw=%s nodes=%s lk=%s ## reg=%s lastid=%d dump=%s\n"
-             (String.concat "" (List.map (fun f -> if f then "1" else "0") flags))
+           (* dawg.New on the whole argument list: an error exactly when the model's new_dawg refuses it *)
+           let new_s = match new_dawg words with
+             | Ok (Some _) -> "ok" | Ok None -> "err" | Panic -> "panic" | NoFuel -> "nofuel" in
+           Printf.printf "acc=%s new=%s words=%s ranks=%s nw=%s nodes=%s lk=%s ## reg=%s lastid=%d dump=%s\n"
+             (String.concat "" (List.map (fun f -> if f then "1" else "0") flags)) new_s
              words_s ranks_s nw nodes_s lks
              (String.concat "." (List.map (fun x -> string_of_int (int_of_n x)) b.breg))
              (int_of_n b.blastid) (dump s))
